@@ -27,10 +27,13 @@ RULE = ('documents from the tree generator (all block kinds, containers nested t
 TRUSTED = ['harness/gen_tree.py records the line of every block as it writes it']
 ASSUMPTIONS = ['compared only when the sequence of block kinds in the parse equals the generated one (a structural difference '
                'is C03\'s business)']
-PARTIAL = ['the theorems cover the block phase (tokenize_block and every read: the line number stored in the parse buffer, '
-           'at every depth); that the token constructors copy that number (ListItem, Table -> TableRow -> TableCell offsets) '
-           'is covered by C13_table_rows for the buffer side and by the exploration on the implementation for the rest',
-           'the model returns err .fuel when its call-chain budget runs out; the theorems are about returned results']
+PARTIAL = ['the model returns err .fuel when its call-chain budget runs out; the theorems are about returned results (C01 proves '
+           'that with enough gas a result is returned)',
+           'the token constructors are covered at the model level (C13_constructors_copy, C13_document_line_numbers: every block '
+           'of Document(lines) at every depth, list items, table rows and cells included, reports the ghost origin of its first '
+           'line); that the model constructors are the code is the doc correspondence (token tree with line numbers) and the '
+           'exploration on generated trees']
+EXTRA_MODULES = ['Mistletoe.Proofs.DocLines']
 
 
 def gen(seed, nblocks=None):
